@@ -119,9 +119,10 @@ Theorem oracle_sound :
   (forall a b, name_wf a -> name_wf b ->
      pair_ok (name_cmp a b) (name_eqb a b) (is_prefix a b) (is_prefix b a) (name_bytes a) (name_bytes b) true = true) /\
   (forall c d, comp_wf c -> comp_wf d -> comp_ok (comp_cmp c d) (comp_eqb c d) (comp_enc c) (comp_enc d) = true) /\
+  (forall n, name_wf n -> brt_ok n (name_from_bytes (name_bytes n)) = true) /\
   (forall n, rt_ok n (name_from_str (name_to_str n)) = true) /\
   (forall c, crt_ok c (comp_from_str (comp_to_str c)) (comp_from_str (comp_to_canon c)) = true).
-Proof. exact (conj model_triple_ok (conj model_pair_ok (conj model_comp_ok (conj model_rt_ok model_crt_ok)))). Qed.
+Proof. exact (conj model_triple_ok (conj model_pair_ok (conj model_comp_ok (conj model_brt_ok (conj model_rt_ok model_crt_ok))))). Qed.
 Print Assumptions oracle_sound.
 
 (* The runner executes linear-time variants of the three parsers (List.rev is quadratic); they are the same functions. *)
